@@ -399,7 +399,7 @@ def op_gene_knock_out(E, m, S):
 
 def op_objective(E, m, S):
     r = _rxn(E, m, pool=("R1", "R2", "DM_B"))
-    how = E.pick(S.tag("objective"), ["reaction", "id", "index", "dict", "Objective", "forward-only", "bad-id", "empty-dict"])
+    how = E.pick(S.tag("objective"), ["reaction", "id", "index", "dict", "Objective", "forward-only", "reverse-only", "bad-id", "empty-dict"])
     if how == "reaction":
         _try(S, "objective=reaction", lambda: setattr(m, "objective", r), ref=lambda R, i=r.id: R.set_objective({i: 1}), r=r.id)
     elif how == "id":
@@ -424,6 +424,12 @@ def op_objective(E, m, S):
         S.asym_ok = getattr(S, "asym_ok", set()) | {r.id}
         _try(S, "objective=forward-only", lambda: setattr(m, "objective", m.problem.Objective(
             1.0 * r.forward_variable, direction="max")), r=r.id, ref=lambda R: (R.objective_unknown(), R.set_objective({}, "max")))
+    elif how == "reverse-only":
+        # e.g. "minimise uptake": a coefficient on the reverse variable alone (sixth seed round: code that looks at the
+        # forward variable only to decide whether a reaction takes part in the objective)
+        S.asym_ok = getattr(S, "asym_ok", set()) | {r.id}
+        _try(S, "objective=reverse-only", lambda: setattr(m, "objective", m.problem.Objective(
+            3.0 * r.reverse_variable, direction="min")), r=r.id, ref=lambda R: (R.objective_unknown(), R.set_objective({}, "min")))
     else:
         _try(S, "objective=bad-id", lambda: setattr(m, "objective", "nope"), ref=IDENT)
 
@@ -546,7 +552,20 @@ def op_add_reactions(E, m, S):
     gone = [r for r in (getattr(S, "removed", []) + getattr(S, "detached", [])) if r.id not in m.reactions]
     if gone:
         kinds.append("previously-removed")
+    if E.notes.get("_lp_only"):
+        # only where the obligation is "the LP is the model's problem" (C01): a list whose second reaction makes the call
+        # raise (metabolite with an empty id).  What the raising call leaves in the cross references is the listed C02
+        # finding (add_reactions is not atomic); the LP must still be the problem of whatever the model then contains
+        kinds.append("second-has-invalid-metabolite")
     kind = E.pick(S.tag("kind"), kinds)
+    if kind == "second-has-invalid-metabolite":
+        ra, rb = Reaction(S.tag("NEWA"), lower_bound=0, upper_bound=5), Reaction(S.tag("NEWB"), lower_bound=-5, upper_bound=5)
+        first = m.metabolites[0] if len(m.metabolites) else Metabolite("A", compartment="c")
+        ra.add_metabolites({first: -1, Metabolite(S.tag("MS"), compartment="c"): 1})
+        rb.add_metabolites({Metabolite("", compartment="c"): -2})
+        # logged under its own name: the listed C01 finding (a reaction id the solver refuses) is keyed on "add_reactions!ValueError"
+        _try(S, "add_reactions[second-refused]", lambda: m.add_reactions([ra, rb]), kind=kind)
+        return
     if kind == "two-sharing-a-new-met-id":
         # one call, two reactions, each built with its own Metabolite object for the same id that is new to the model
         mid = S.tag("MS")
@@ -656,7 +675,13 @@ def op_detached_edit(E, m, S):
 
 
 def op_add_model_metabolites(E, m, S):
-    kind = E.pick(S.tag("kind"), ["new", "existing-id", "empty-id"])
+    kind = E.pick(S.tag("kind"), ["new", "existing-id", "empty-id", "new-then-empty-id"])
+    if kind == "new-then-empty-id":
+        # a list whose second item is refused: the call raises and must not have added the first (validation comes first)
+        first = Metabolite(S.tag("MM"), compartment="c")
+        _try(S, "add_metabolites(model)", lambda: m.add_metabolites([first, Metabolite("")]), kind=kind,
+             ref=lambda R: (R.mets.append(first.id) if first.id not in R.mets else None))
+        return
     met = {"new": Metabolite(S.tag("MM"), compartment="c"), "existing-id": Metabolite(m.metabolites[0].id if len(m.metabolites) else "A"),
            "empty-id": Metabolite("")}[kind]
     _try(S, "add_metabolites(model)", lambda: m.add_metabolites([met]), kind=kind,
